@@ -10,6 +10,7 @@ import (
 	"regexp"
 	"strings"
 	"sync"
+	"sync/atomic"
 )
 
 // Engine B2 (DESIGN §5 C09): the real process under strace, SIGKILL injected at
@@ -36,6 +37,10 @@ type b2Replay struct {
 const b2Set = "openat,write,close,rename,renameat,renameat2,unlink,unlinkat,ftruncate,fsync,fdatasync,link,linkat"
 
 var syscallLine = regexp.MustCompile(`^(\w+)\(`)
+
+// b2KillsFired counts injected SIGKILLs that really ended the helper (a fault that is configured
+// but never fires tests nothing).
+var b2KillsFired atomic.Int64
 
 type b2Result struct {
 	Evaluations int
@@ -83,21 +88,28 @@ func helperOut(helper string, args ...string) (string, error) {
 
 // b2One runs the save sequence with one injection and judges the outcome.
 // It returns the violated rule ("" = none), a message, the helper's stdout and the load result.
+// inject is "none", "enospc" (k-th write fails) or "kill:<syscall>" (the k-th invocation of that syscall is
+// met with SIGKILL on entry). strace counts "when=" separately for every syscall of a set, so one syscall is
+// named per run.
 func b2One(helper, dir, specFile string, sums map[int]string, empty string, inject string, k int) (rule, msg, stdout, loaded string, err error) {
 	_ = os.RemoveAll(dir)
 	args := []string{"-o", "/dev/null"}
-	switch inject {
-	case "kill":
-		args = append(args, "-e", "trace="+b2Set, "-e", fmt.Sprintf("inject=%s:signal=SIGKILL:when=%d", b2Set, k))
-	case "enospc":
+	switch {
+	case strings.HasPrefix(inject, "kill:"):
+		sc := strings.TrimPrefix(inject, "kill:")
+		args = append(args, "-e", "trace="+sc, "-e", fmt.Sprintf("inject=%s:signal=SIGKILL:when=%d", sc, k))
+	case inject == "enospc":
 		args = append(args, "-e", "trace=write", "-e", fmt.Sprintf("inject=write:error=ENOSPC:when=%d", k))
-	case "none":
+	default:
 		args = append(args, "-e", "trace="+b2Set)
 	}
 	logFile := dir + ".protocol"
 	args = append(args, helper, "save", dir, specFile, logFile)
 	cmd := exec.Command("strace", args...)
-	_ = cmd.Run() // a killed helper is expected
+	runErr := cmd.Run() // a killed helper is expected
+	if strings.HasPrefix(inject, "kill:") && runErr != nil {
+		b2KillsFired.Add(1)
+	}
 	pb, _ := os.ReadFile(logFile)
 	_ = os.Remove(logFile)
 	stdout = string(pb)
@@ -150,7 +162,7 @@ func b2One(helper, dir, specFile string, sums map[int]string, empty string, inje
 	} else {
 		allowed[empty] = true
 	}
-	if lastBegin > lastSaved && inject == "kill" {
+	if lastBegin > lastSaved && strings.HasPrefix(inject, "kill:") {
 		allowed[sums[lastBegin]] = true // renamed into place but not yet acknowledged
 	}
 	if inject == "enospc" {
@@ -220,18 +232,29 @@ func runB2(rc *runCtx) (*b2Result, error) {
 		}
 		lb, _ := os.ReadFile(logf)
 		n, first, nw, firstW := 0, 0, 0, 0
+		perCall := map[string]int{}
+		type point struct {
+			inject string
+			k      int
+		}
+		var pts []point
 		for _, l := range strings.Split(string(lb), "\n") {
 			m := syscallLine.FindStringSubmatch(l)
 			if m == nil {
 				continue
 			}
 			n++
+			perCall[m[1]]++
 			if m[1] == "write" {
 				nw++
 			}
 			if first == 0 && strings.Contains(l, "dry.protocol") {
 				// the protocol file is opened right before the save sequence starts
 				first, firstW = n+1, nw+1
+				continue
+			}
+			if first != 0 {
+				pts = append(pts, point{"kill:" + m[1], perCall[m[1]]})
 			}
 		}
 		if first == 0 {
@@ -245,18 +268,11 @@ func runB2(rc *runCtx) (*b2Result, error) {
 			res.Violations = append(res.Violations, b2Violation(rc, seq, "none", 0, rule, msg, "", ""))
 			continue
 		}
-		type point struct {
-			inject string
-			k      int
-		}
-		var pts []point
-		for k := first; k <= n+1; k++ {
-			pts = append(pts, point{"kill", k})
-		}
+		nkill := len(pts)
 		for k := firstW; k <= nw; k++ {
 			pts = append(pts, point{"enospc", k})
 		}
-		res.Points[fmt.Sprintf("sequence%d_kill_points", si)] = n + 2 - first
+		res.Points[fmt.Sprintf("sequence%d_kill_points", si)] = nkill
 		res.Points[fmt.Sprintf("sequence%d_enospc_points", si)] = nw + 1 - firstW
 		var mu sync.Mutex
 		var wg sync.WaitGroup
@@ -280,7 +296,7 @@ func runB2(rc *runCtx) (*b2Result, error) {
 				if rule != "" {
 					res.Violations = append(res.Violations, b2Violation(rc, seq, pt.inject, pt.k, rule, msg, stdout, loaded))
 				}
-				if len(res.Samples) < 2 && pt.inject == "kill" && pi == len(pts)/3 {
+				if len(res.Samples) < 2 && strings.HasPrefix(pt.inject, "kill:") && pi == nkill/2 {
 					res.Samples = append(res.Samples, map[string]interface{}{"engine": "B2", "sequence": seq, "inject": pt.inject, "at_syscall": pt.k, "helper_stdout": stdout, "store_left_behind": loaded})
 				}
 			}(pi, pt)
@@ -289,6 +305,16 @@ func runB2(rc *runCtx) (*b2Result, error) {
 		if firstErr != nil {
 			return nil, firstErr
 		}
+	}
+	res.Points["kills_that_ended_the_helper"] = int(b2KillsFired.Load())
+	total := 0
+	for k, v := range res.Points {
+		if strings.HasSuffix(k, "kill_points") {
+			total += v
+		}
+	}
+	if total > 0 && b2KillsFired.Load() < int64(total)*8/10 {
+		return nil, fmt.Errorf("only %d of %d injected SIGKILLs ended the helper process: the fault injection does not work as intended", b2KillsFired.Load(), total)
 	}
 	return res, nil
 }
